@@ -169,6 +169,26 @@ def add_edges(res, ed, prop):
     res.coverage["forced_choice_edges"] = cov
     res.samples.extend(ed["samples"][:2])
 
+GUARD_PROPS = ("C01", "C02", "C03", "C05", "C10", "C17")
+
+def add_guards(res, gs, prop):
+    seen = set()
+    for f in gs["findings"]:
+        if f["kind"] == "V" and f["tag"] == prop:
+            sig = "%s:guards:%s" % (prop, f["why"])
+            k = (sig, f["edge"]["op"], json.dumps(f["edge"]["pre"]))
+            if k in seen: continue
+            seen.add(k)
+            res.violation(sig, "%s when opcode 0x%02x (enabled by the implementation, not by the model) is forced in state %s [%s]" % (
+                f["why"], f["edge"]["op"], json.dumps(f["edge"]["pre"]), f["config"]),
+                {"stage": "edges", "edge": f["edge"], "property": prop, "reason": f["why"]})
+    for dr in gs["drift"][:5]:
+        res.drift.append({"tag": "guard-table", "why": "enabled set differs from the model: impl-only %s model-only %s" % (dr["impl_only"], dr["model_only"]),
+                          "job": dr["config"], "event": "state %s" % dr["state"]})
+    cov = gs["coverage"]
+    res.coverage["guard_table_conformance"] = cov
+    res.coverage["traces_validated_against_impl"] = res.coverage.get("traces_validated_against_impl", 0) + cov["abstract_states_compared"]
+
 BYTES_PROPS = ("C01", "C02", "C03", "C04", "C05", "C06", "C10", "C11")
 
 def add_bytes(res, bs, prop):
@@ -195,6 +215,8 @@ def generic_tracegen_check(prop, mc_names, extra_notes=(), edges=False):
             add_edges(res, stages.edges_stage(tier_, tree_key()), prop)
         if prop in BYTES_PROPS:
             add_bytes(res, stages.bytes_stage(tier_, tree_key()), prop)
+        if prop in GUARD_PROPS:
+            add_guards(res, stages.guards_stage(tier_, tree_key()), prop)
         if mc_names:
             add_mc(res, tier_, mc_names)
         res.assumptions = ASSUME_TRACE + (ASSUME_MC if mc_names else [])
